@@ -39,8 +39,8 @@ def packer(name, bits, ncalls, dmin, dmax, timeout, extra=(), nmax=None, desc=''
         # gap/overlap branches: bounded when the obligation allows them, cut (bound 1) when delta excludes them
         ('jls_wr_fsr_data', r'while \(data_length\)', 4 if (ov and bits < 8) else 1),
         ('jls_wr_fsr_data', r'idx < sz;', (min(scratch, callbytes) + 2) if (ov and bits < 8) else 1),
-        ('jls_wr_fsr_data', r'idx < buf_sz', (scratch // 4 + 2) if (gap and bits == 32) else 1),
-        ('jls_wr_fsr_data', r'sizeof\(double\)', (scratch // 8 + 2) if (gap and bits == 64) else 1),
+        ('jls_wr_fsr_data', r'idx < buf_sz', (scratch // 4 + 2) if gap else 1),
+        ('jls_wr_fsr_data', r'sizeof\(double\)', (scratch // 8 + 2) if gap else 1),
         ('jls_wr_fsr_data', r'while \(skip\)', ((max(dmax, 0) + fill_per_iter - 1) // fill_per_iter + 2) if gap else 1),
         ('jls_wr_fsr_data', r'ROE\(|JLS_LOG', 2),
     ]
